@@ -94,7 +94,7 @@ def run(tier, repo):
                 # sub: confined -> do not descend; peek: descend
                 if k == "peek":
                     top(st[2], here)
-        top(r["code"])
+        top(r.get("full_code", r["code"]))
         rp.check(not bad, "EXTENT-CONFINED", path.split("::")[-1], site(F.fn(path)), "extent-sensitive element outside any length-delimited region: %s" % bad[:4], found=bad[:8],
                  why_ok="unscoped part is fixed-width / length-prefixed only")
     # 3. field types
